@@ -31,22 +31,72 @@ theorem hornGoal_rename (ρ : Nat → Nat) (t : Term) : hornGoal (t.rename ρ) =
   | app f as => simp [Term.rename, Term.subst, hornGoal, Args.length_subst]
   | _ => rfl
 
-theorem isCall1_rename (ρ : Nat → Nat) (t : Term) : isCall1 (t.rename ρ) = isCall1 t := by
+theorem rename_eq_app {t : Term} {ρ : Nat → Nat} {f : String} {as : Args} (h : t.rename ρ = .app f as) :
+    ∃ as', t = .app f as' ∧ as'.subst (fun v => .var (ρ v)) = as := by
   cases t with
-  | app f as =>
-    cases as with
-    | nil => simp [Term.rename, Term.subst, Args.subst, isCall1]
-    | cons a as' =>
-      cases as' with
-      | nil =>
-        by_cases hf : f = "call"
-        · subst hf; simp [Term.rename, Term.subst, Args.subst, isCall1]
-        · simp [Term.rename, Term.subst, Args.subst, isCall1, hf]
-      | cons _ _ => simp [Term.rename, Term.subst, Args.subst, isCall1]
-  | _ => rfl
+  | app f' as' =>
+    simp only [Term.rename, Term.subst, Term.app.injEq] at h
+    exact ⟨as', by rw [h.1], h.2⟩
+  | _ => simp [Term.rename, Term.subst] at h
+
+theorem subst_eq_cons {as : Args} {σ : Subst} {a : Term} {bs : Args} (h : as.subst σ = .cons a bs) :
+    ∃ a' bs', as = .cons a' bs' ∧ a'.subst σ = a ∧ bs'.subst σ = bs := by
+  cases as with
+  | nil => simp [Args.subst] at h
+  | cons a' bs' =>
+    simp only [Args.subst, Args.cons.injEq] at h
+    exact ⟨a', bs', rfl, h.1, h.2⟩
+
+theorem subst_eq_nil {as : Args} {σ : Subst} (h : as.subst σ = .nil) : as = .nil := by
+  cases as with
+  | nil => rfl
+  | cons _ _ => simp [Args.subst] at h
+
+theorem ctlGoal_iff {t : Term} : ctlGoal t = true ↔ Ctl t := by
+  constructor
+  · exact ctlGoal_shape
+  · intro h
+    cases h with
+    | call x hx => subst hx; rfl
+    | ite c t e hx => subst hx; rfl
+    | ifthen c t hx => subst hx; simp [ctlGoal]
+
+theorem ctl_rename {t : Term} (ρ : Nat → Nat) (h : Ctl t) : Ctl (t.rename ρ) := by
+  cases h with
+  | call x hx => subst hx; exact .call (x.rename ρ) rfl
+  | ite c t e hx => subst hx; exact .ite (c.rename ρ) (t.rename ρ) (e.rename ρ) rfl
+  | ifthen c t hx => subst hx; exact .ifthen (c.rename ρ) (t.rename ρ) rfl
+
+theorem ctl_of_rename {t : Term} (ρ : Nat → Nat) (h : Ctl (t.rename ρ)) : Ctl t := by
+  cases h with
+  | call x hx =>
+    obtain ⟨as', rfl, has⟩ := rename_eq_app hx
+    obtain ⟨a', bs', rfl, _, hb⟩ := subst_eq_cons has
+    rw [subst_eq_nil hb]
+    exact .call _ rfl
+  | ite c t e hx =>
+    obtain ⟨as', rfl, has⟩ := rename_eq_app hx
+    obtain ⟨a', bs', rfl, ha, hb⟩ := subst_eq_cons has
+    obtain ⟨e', bs'', rfl, _, hb'⟩ := subst_eq_cons hb
+    rw [subst_eq_nil hb']
+    obtain ⟨as2, rfl, has2⟩ := rename_eq_app (t := a') (ρ := ρ) ha
+    obtain ⟨c', cs, rfl, _, hc⟩ := subst_eq_cons has2
+    obtain ⟨t', ts, rfl, _, ht⟩ := subst_eq_cons hc
+    rw [subst_eq_nil ht]
+    exact .ite _ _ _ rfl
+  | ifthen c t hx =>
+    obtain ⟨as', rfl, has⟩ := rename_eq_app hx
+    obtain ⟨a', bs', rfl, _, hb⟩ := subst_eq_cons has
+    obtain ⟨e', bs'', rfl, _, hb'⟩ := subst_eq_cons hb
+    rw [subst_eq_nil hb']
+    exact .ifthen _ _ rfl
+
+theorem ctlGoal_rename (ρ : Nat → Nat) (t : Term) : ctlGoal (t.rename ρ) = ctlGoal t := by
+  rw [Bool.eq_iff_iff, ctlGoal_iff, ctlGoal_iff]
+  exact ⟨ctl_of_rename ρ, ctl_rename ρ⟩
 
 theorem stepGoal_rename (s : Bool) (ρ : Nat → Nat) (t : Term) : stepGoal s (t.rename ρ) = stepGoal s t := by
-  simp [stepGoal, hornGoal_rename, isCall1_rename]
+  simp [stepGoal, hornGoal_rename, ctlGoal_rename]
 
 /-- the state after the query's hand-off recorded an answer -/
 def recordAnswer (tmpl : Term) (env : Env) (m : MS) : MS :=
